@@ -31,6 +31,10 @@ CHECKS = {
    technique="explicit-state replay-BFS with a crash-restart event enabled after every committed step of every node (runtime and memory dropped, node reopened on its files), one-sided recovery oracle plus convergence closure",
    text="Every history of local writes, complete/partial deliveries, apply and clear steps to fix-point, with a crash of any node placed after any step (each step performs at most one commit; the window between a commit and the in-memory update is the same disk state with memory discarded). After restart: every acknowledged local version is known, the rebuilt sync state claims as held only versions that were delivered complete or covered (and advertises at least the truly missing seqs of partials), fully buffered versions are re-scheduled and applied, and the fair closure still converges to the reference merge.",
    note="Restart uses the harness's socket-free open, which repeats run_root's bookkeeping load (same SQL, BookedVersions::from_conn, re-trigger rule); validation of that against the real start_with_config is listed in DESIGN.md as not yet bound. Torn pages / fsync ordering are outside the statement."),
+ "C07": dict(engine="localtx", design="§5 C07",
+   technique="exhaustive enumeration of request sequences through the real api_v1_transactions against a reference model (row map + version counter), including chunk-boundary sweeps of large transactions",
+   text="Every sequence of <= 2 (thorough 3) requests over 17 statement lists (inserts, multi-row, updates, no-op updates, deletes, deletes of missing rows, three-statement lists failing at statement 1/2/3 by syntax error or key violation, wrong parameter count, NOT NULL violation, state-dependent failure, empty list), plus single-statement transactions of n rows for every n in windows crossing the 8 KiB chunk boundary (and 0, 1, 400/3000) and a 1 s timeout case: after every request the status, the returned version (previous+1, or none for failures and no-ops), the table contents, crsql_db_version, the advertised own head, absence of gaps for the own actor, and the announced changesets (tile 0..=last_seq, exactly the version's changes, none for failed/no-op requests) are compared with the model.",
+   note="Sequential requests only; concurrent requests are serialised by the write pool, whose exclusion/priority is C20's check. The interleaving of the post-commit broadcast task with a following transaction is not explored (listed in DESIGN.md)."),
  "C08": dict(engine="pure", design="§5 C08",
    technique="exhaustive enumeration of change lists x size limits x limit-change schedules through the real ChunkedChanges iterator and chunk_range",
    text="All start in 0..=2, spans up to 6 (thorough 8), every subset of [start,last] as present seqs, small/large size per change, 8 limits incl. 0, limit changed after each of the first 2 (thorough 3) chunks to any limit; tiling, containment, order and termination are asserted on every produced chunk list; chunk_range for all lo<=hi<=30 (60) x chunk 1..=12.",
@@ -91,6 +95,7 @@ def main():
             {"name": "booked", "path": "harness/src/bin/booked.rs", "serves_properties": ["C02"], "kind_free_text": "BFS to fix-point over real bookkeeping + replay-BFS over a real node"},
             {"name": "codec", "path": "harness/src/bin/codec.rs", "serves_properties": ["C09"], "kind_free_text": "exhaustive bounded input enumeration in child processes"},
             {"name": "ingest", "path": "harness/src/bin/ingest.rs", "serves_properties": ["C10"], "kind_free_text": "exhaustive arrival sequences through the real handle_changes loop"},
+            {"name": "localtx", "path": "harness/src/bin/localtx.rs", "serves_properties": ["C07"], "kind_free_text": "request-sequence enumeration against a reference model"},
             {"name": "members", "path": "harness/src/bin/members.rs", "serves_properties": ["C18"], "kind_free_text": "stateright BFS over the real Members methods"},
             {"name": "repl", "path": "harness/src/bin/repl.rs", "serves_properties": ["C01", "C03", "C05", "C06"], "kind_free_text": "replay-from-history explicit-state BFS over 2-3 real nodes"},
             {"name": "pure", "path": "harness/src/bin/pure.rs", "serves_properties": ["C04", "C08"], "kind_free_text": "exhaustive small-scope enumeration of pure functions against set models"},
